@@ -8,6 +8,7 @@ import (
 
 	"github.com/jsightapi/jsight-schema-core/notations/jschema"
 	"github.com/jsightapi/jsight-schema-core/notations/jschema/ischema"
+	"github.com/jsightapi/jsight-schema-core/notations/jschema/ischema/constraint"
 	"github.com/jsightapi/jsight-schema-core/openapi"
 
 	"verif/harness/internal/core"
@@ -45,7 +46,8 @@ type aoCase struct {
 		Name string  `json:"name"`
 		Keys []aoKey `json:"keys"`
 	} `json:"alts"` // a choice root `@x | @y`: the listing of each alternative
-	Warm []string `json:"warm,omitempty"` // call prefix (SchemaApi_orders) after which the assertions are repeated
+	Warm   []string `json:"warm,omitempty"`   // call prefix (SchemaApi_orders) after which the assertions are repeated
+	OptDef bool     `json:"optdef,omitempty"` // the named types are created with AreKeysOptionalByDefault
 }
 
 var aoCodes = map[string]int{"missing": 1302, "nonobject": 704, "cycle": 703, "duplicate": 402, "apconflict": 705}
@@ -164,7 +166,9 @@ func aoEvalAfter(cs aoCase, warm []string) []core.Finding {
 			if t.D.Kind == "withheld" {
 				continue
 			}
-			if err := root.AddType("@"+t.Name, jschema.New("@"+t.Name, aoText(t.D, kv))); err != nil {
+			ty := jschema.New("@"+t.Name, aoText(t.D, kv))
+			ty.AreKeysOptionalByDefault = cs.OptDef
+			if err := root.AddType("@"+t.Name, ty); err != nil {
 				return []core.Finding{{Class: "allof:addtype", What: fmt.Sprintf("AddType(@%s): %v\n%s", t.Name, firstLineOf(err), aoDump(cs))}}
 			}
 		}
@@ -238,6 +242,13 @@ func aoEvalAfter(cs aoCase, warm []string) []core.Finding {
 			if len(kids) != len(cs.Keys) {
 				fs = append(fs, core.Finding{Class: aoClass(cs, "compiled-keys"), What: fmt.Sprintf("compiled root has %d properties, expected %v\n%s", len(kids), want, aoDump(cs))})
 			} else {
+				// required/optional status as the compiled schema has it: the required keys of the object
+				required := map[string]bool{}
+				if rk, ok := on.Constraint(constraint.RequiredKeysConstraintType).(*constraint.RequiredKeys); ok && rk != nil {
+					for _, k := range rk.Keys() {
+						required[k] = true
+					}
+				}
 				for i, kid := range kids {
 					k := on.Key(i)
 					from := kid.InheritedFrom()
@@ -245,8 +256,8 @@ func aoEvalAfter(cs aoCase, warm []string) []core.Finding {
 					if cs.Origin[i].Via != "root" {
 						wantVia, wantOrigin = "@"+cs.Origin[i].Via, "@"+cs.Origin[i].Origin
 					}
-					if k.Key != cs.Keys[i].K || (from != wantVia && from != wantOrigin) || ischema.IsOptionalNode(kid) != cs.Keys[i].Opt {
-						fs = append(fs, core.Finding{Class: aoClass(cs, "compiled-property"), What: fmt.Sprintf("property #%d is %q from %q optional=%v; expected %q from %q/%q optional=%v\n%s", i, k.Key, from, ischema.IsOptionalNode(kid), cs.Keys[i].K, wantVia, wantOrigin, cs.Keys[i].Opt, aoDump(cs))})
+					if k.Key != cs.Keys[i].K || (from != wantVia && from != wantOrigin) || !required[k.Key] != cs.Keys[i].Opt {
+						fs = append(fs, core.Finding{Class: aoClass(cs, "compiled-property"), What: fmt.Sprintf("property #%d is %q from %q optional=%v; expected %q from %q/%q optional=%v\n%s", i, k.Key, from, !required[k.Key], cs.Keys[i].K, wantVia, wantOrigin, cs.Keys[i].Opt, aoDump(cs))})
 						break
 					}
 				}
@@ -280,7 +291,9 @@ func aoEvalAfter(cs aoCase, warm []string) []core.Finding {
 				return
 			}
 			for i := range got {
-				if gotOpt[i] != cs.Keys[i].Opt {
+				// (the converter reads the `optional` rule only: with types whose keys are optional by default the
+				// flag of the listing is not compared)
+				if !cs.OptDef && gotOpt[i] != cs.Keys[i].Opt {
 					fs = append(fs, core.Finding{Class: aoClass(cs, "openapi-optional"), What: fmt.Sprintf("OpenAPI property %q optional=%v, expected %v\n%s", got[i], gotOpt[i], cs.Keys[i].Opt, aoDump(cs))})
 					return
 				}
@@ -332,15 +345,19 @@ func aoChoiceListing(cs aoCase, root *jschema.JSchema) (fs []core.Finding) {
 
 func runC07(c *core.Ctx) error {
 	type cf struct{ name, body string }
+	mko := func(n int, keys string, ml int, aps string, nest string, choice string, optdef string) string {
+		return fmt.Sprintf("SPECIFICATION Spec\nCONSTANTS\n  N = %d\n  KeySet = %s\n  MaxList = %d\n  APs = %s\n  Nest = %s\n  RootChoice = %s\n  OptDefTypes = %s\nINVARIANTS MergeHasNoDuplicateKeys MergeStable NoListNoChange NestedHeirGains Emit\nCHECK_DEADLOCK FALSE\n", n, keys, ml, aps, nest, choice, optdef)
+	}
 	mkc := func(n int, keys string, ml int, aps string, nest string, choice string) string {
-		return fmt.Sprintf("SPECIFICATION Spec\nCONSTANTS\n  N = %d\n  KeySet = %s\n  MaxList = %d\n  APs = %s\n  Nest = %s\n  RootChoice = %s\nINVARIANTS MergeHasNoDuplicateKeys MergeStable NoListNoChange NestedHeirGains Emit\nCHECK_DEADLOCK FALSE\n", n, keys, ml, aps, nest, choice)
+		return mko(n, keys, ml, aps, nest, choice, "FALSE")
 	}
 	mk := func(n int, keys string, ml int, aps string, nest string) string {
 		return mkc(n, keys, ml, aps, nest, "FALSE")
 	}
 	cfgs := []cf{{"AllOf_2.cfg", mk(2, `{"k1", "k2"}`, 2, `{"absent", "false", "true"}`, "FALSE")},
 		{"AllOf_2nest.cfg", mk(2, `{"k1", "k2"}`, 1, `{"absent"}`, "TRUE")},
-		{"AllOf_2choice.cfg", mkc(2, `{"k1", "k2"}`, 1, `{"absent"}`, "FALSE", "TRUE")}}
+		{"AllOf_2choice.cfg", mkc(2, `{"k1", "k2"}`, 1, `{"absent"}`, "FALSE", "TRUE")},
+		{"AllOf_2optdef.cfg", mko(2, `{"k1", "k2"}`, 1, `{"absent"}`, "FALSE", "FALSE", "TRUE")}}
 	if c.Thorough() {
 		cfgs = append(cfgs, cf{"AllOf_2ap.cfg", mk(2, `{"k1", "k2"}`, 2, `{"absent", "false", "string", "any", "true"}`, "FALSE")},
 			cf{"AllOf_3.cfg", mk(3, `{"k1", "k2", "k3"}`, 1, `{"absent", "false"}`, "FALSE")},
